@@ -3,6 +3,7 @@
 
 use crate::common::*;
 use crate::exec::*;
+use crate::gen::*;
 use crate::model;
 use crate::pipelines::*;
 use verif_rt::rng::Rng;
@@ -36,7 +37,15 @@ impl Engine for C12 {
         } else {
             *rng.pick(&[1usize, 2, 3, 3, 4, 4, 5, 6])
         };
-        super::c11::gen_cgr_case(rng, tier, "C12", k)
+        let mut case = super::c11::gen_cgr_case(rng, tier, "C12", k);
+        // very rarely one record beyond 2^24 bases (see `gen_huge_seq`); the k-mer CGR row
+        // has a fixed number of columns, so the output stays small
+        if k <= 5 && !case.records.is_empty() && rng.chance(1, 16000) {
+            case.records.truncate(3);
+            let i = rng.usize(0, case.records.len() - 1);
+            case.records[i].seq = gen_huge_seq(rng);
+        }
+        case
     }
 
     fn execute(&self, case: &Case, sb: &Sandbox) -> Outcome {
